@@ -496,6 +496,14 @@ class Provenance(MutableSequence[Expression]):
                     else data[..., 0]
                 )
                 units = [unit for unit in np.unique(unit_data) if unit != -1]
+                # The data refers to units by identifier, so we translate identifiers to unit positions.
+                positions = {unit: i for i, unit in enumerate(units)}
+                positions[-1] = -1
+                data = np.array(data, dtype=np.int_)
+                if data.ndim == 1 or data.shape[-1] == 1:
+                    data = np.vectorize(positions.get, otypes=[np.int_])(data)
+                else:
+                    data[..., 0] = np.vectorize(positions.get, otypes=[np.int_])(data[..., 0])
 
             self._units = units if isinstance(units, Units) else Units(units=units, candidates=candidates)
             num_units = len(self._units.units)
